@@ -30,6 +30,8 @@ class ContractInfo(NamedTuple):
     args: list[ast.expr | astroid.NodeNG]
     kwargs: list[ast.keyword | astroid.Keyword]
     line: int
+    # the contract is declared on a method of a base class (maybe in another file)
+    inherited: bool = False
 
 
 def get_contracts(
@@ -102,7 +104,8 @@ def _resolve_inherit(contract: ast.Attribute | astroid.Attribute) -> Iterator[Co
             assert isinstance(method, astroid.FunctionDef)
             if method.name != func.name:
                 continue
-            yield from get_contracts(method)
+            for cinfo in get_contracts(method):
+                yield cinfo._replace(line=contract.lineno, inherited=True)
 
 
 def _get_parent_class(node) -> astroid.ClassDef | None:
